@@ -8,6 +8,7 @@ import (
 	"fmt"
 	gerrors "github.com/AdguardTeam/golibs/errors"
 	"math"
+	"net"
 	"net/netip"
 	"net/url"
 	"reflect"
@@ -604,6 +605,32 @@ func c16Case(r *mon.Run, raw string, e, n *int64) {
 		*e++
 		if top2.URL != red || top2.Err != error(mid) || mid.URL != "https://second.example/other?x=1" || mid.Err != error(deep) || deep.URL != "https://third:pw@third.example/z" {
 			r.Violation("urlerr-nested:"+mon.Q(raw), fmt.Sprintf("RedactUserinfoInURLError on a *url.Error that wraps *url.Errors about other URLs: top URL %q (want %q), nested URLs %q and %q (must stay as they were)", top2.URL, red, mid.URL, deep.URL), map[string]any{"raw": raw})
+		}
+		// the wrapped error is an error of its own even when its text repeats the credentials (a transport error
+		// naming its target): the same value stays in Err, with the same text
+		for k, mk := range []func() error{
+			func() error { return errors.New("dial " + u.String() + ": refused") },
+			func() error { return fmt.Errorf("transport: %w", &otherErr{URL: u.String()}) },
+			func() error { return &otherErr{URL: u.User.String() + "@" + u.Host} },
+			func() error {
+				return &net.OpError{Op: "dial", Net: "tcp", Err: errors.New("lookup " + u.User.String() + "@" + u.Host)}
+			},
+			func() error { return wrapErr{errors.New(u.String())} },
+		} {
+			in := mk()
+			before := in.Error()
+			top5 := &url.Error{Op: "Get", URL: u.String(), Err: in}
+			urlutil.RedactUserinfoInURLError(&u, top5)
+			*e++
+			same := false
+			func() {
+				defer func() { _ = recover() }() // an incomparable replacement is not the same value either
+				same = top5.Err == in
+			}()
+			if !same || in.Error() != before || top5.URL != red {
+				r.Violation(fmt.Sprintf("urlerr-inner%d:%s", k, mon.Q(raw)), fmt.Sprintf("RedactUserinfoInURLError on a *url.Error whose wrapped error (%T, %q) repeats the userinfo: Err is now %T %q (same value: %v), URL %q (want %q)", in, before, top5.Err, fmt.Sprint(top5.Err), same, top5.URL, red), map[string]any{"raw": raw})
+				break
+			}
 		}
 		// chained use: the URL handed in is itself the result of an earlier redaction (its userinfo is the mask),
 		// the error still carries the credentials - it has userinfo, so the text is replaced
